@@ -147,6 +147,11 @@ impl Cluster {
         (committee_file, key_file, store_path, params_file)
     }
 
+    /// Whether the puppet policy injected at least one invalid variant in this run.
+    pub fn obs_invalid_injected(&self, o: &Observer) -> bool {
+        o.probes.get("puppet.invalid-injected").cloned().unwrap_or(0) > 0
+    }
+
     pub async fn boot(&mut self, i: usize) {
         let (c, k, s, p) = self.write_config(i);
         let node = Node::new(&c, &k, &s, Some(p)).await.expect("boot node");
